@@ -1193,7 +1193,7 @@ mutual
           | apply runOK_app
           | apply runOK_macros env mid0
           | apply runOK_macros env mid)
-    | .pipe hostport tok attrs mid0 mid1 mid2 midA mid midD, r, h => by
+    | .pipe hostport tok target mid0 mid1 mid2 midA mid midD, r, h => by
       unfold runMacro
       simp only []
       repeat' split
